@@ -56,8 +56,14 @@ def judge (ops outs : List String) : String :=
     -- `committed` = a Commit happened since. The only discrepancy classified as the known finding is a
     -- chunks gauge ABOVE the recount whose excess grew across a Commit (or stayed); everything else,
     -- including an excess that appears or changes without a Commit, is `kind=other`.
-    let rec go (openApps : Int) (excess : Int) (committed : Bool) (known : Option String) (k : Nat) :
-        List (String × String) → String
+    -- A second classified discrepancy (finding C52-F7, in-order variant): the first `stat` after a
+    -- restart shows the chunks gauge ABOVE the recount although no Commit happened in between, in a
+    -- history that compacted the head before (a series left the head, was created again, and the WAL
+    -- replay's `resetSeriesWithMMappedChunks` for the second series record dropped an already replayed
+    -- head chunk without subtracting it). `fresh` = no `stat` yet since the last restart; `compacted` =
+    -- a `compact` op occurred earlier in the case.
+    let rec go (openApps : Int) (excess : Int) (committed : Bool) (fresh : Bool) (compacted : Bool)
+        (known : Option String) (k : Nat) : List (String × String) → String
       | [] => known.getD "ok"
       | (op, o) :: rest =>
         let t := toks op
@@ -74,15 +80,19 @@ def judge (ops outs : List String) : String :=
             else if g.drop 3 ≠ [openApps] then s!"violation active-appenders step={k} expected={openApps} {o}"
             else
               let e : Int := (g.getD 2 0) - (r.getD 2 0)
-              if e = excess then go openApps' excess false known (k + 1) rest
+              if e = excess then go openApps' excess false false compacted known (k + 1) rest
               else if e > excess ∧ committed then
-                go openApps' e false (some (known.getD s!"violation gauges-differ-from-recount kind=chunks-gauge-high-after-commit step={k} {o}")) (k + 1) rest
+                go openApps' e false false compacted (some (known.getD s!"violation gauges-differ-from-recount kind=chunks-gauge-high-after-commit step={k} {o}")) (k + 1) rest
+              else if e > excess ∧ fresh ∧ compacted then
+                go openApps' e false false compacted (some (known.getD s!"violation gauges-differ-from-recount kind=chunks-gauge-high-after-replay-of-recreated-series step={k} {o}")) (k + 1) rest
               else s!"violation gauges-differ-from-recount kind=other step={k} excess-before={excess} {o}"
           | none => s!"violation unreadable-stat step={k} {o}"
         else
-          let excess' := if t = ["reopen"] ∨ t.head? = some "cfg" then 0 else excess
-          go openApps' excess' (committed || (t = ["commit"] && o == "ok")) known (k + 1) rest
-    go 0 0 false none 0 pairs
+          let restart := t = ["reopen"] ∨ t.head? = some "cfg"
+          let excess' := if restart then 0 else excess
+          let committed' := if restart then false else (committed || (t = ["commit"] && o == "ok"))
+          go openApps' excess' committed' (fresh || (t = ["reopen"] && o == "ok")) (compacted || t = ["compact"]) known (k + 1) rest
+    go 0 0 false false false none 0 pairs
 
 def suite : Suite := { name := "counters", model := model, judge := judge }
 
